@@ -574,7 +574,7 @@ func init() {
 	rule := "scenario = rules file in CRS layout rendered from a structure that knows the byte span of every operand (1-5 rules, chains of length 0-3, @rx / !@rx / other operators, comments incl. commented-out SecRule lines, (12%) comments that mention `id:NNNNNN`, (8%) a neighbour whose id starts with another rule's id, CRLF, missing final newline; stored operands containing \\\"@rx , \\\" \\x5c, $, blanks, back-ticks) + 1-3 assembly files (15%: two of them with the same program) whose programs contain quotes, backslashes, blanks, `@rx ` and `\" \\` text, flags, prefixes, blocks and includes; each command under its own schedule (map iteration + directory order). "
 	register(&Property{
 		ID: "C11", Level: "exploration",
-		Rule: rule + "History: generate T; update T. Oracle: the rules file equals the original with exactly the target's span replaced by generate's stdout (byte for byte: other rules, comments, line endings, final newline or its absence) and every other file's snapshot is unchanged. Non-trivial = the program compiles and update ran; distinct = distinct worlds.",
+		Rule: rule + "History: generate T; update T (20%: with -l debug / trace / warn); for the last link of a rule also update of the link one beyond it, which must not change a byte. Oracle: the rules file equals the original with exactly the target's span replaced by generate's stdout (byte for byte: other rules, comments, line endings, final newline or its absence) and every other file's snapshot is unchanged. Non-trivial = the program compiles and update ran; distinct = distinct worlds.",
 		Gen:  genRules, Eval: evalC11,
 		QuickChecks: 1500, ThoroughChecks: 25000, Timeout: 20 * time.Second,
 		Assumptions: []string{"rules files follow the CRS layout the property names: the id action is on the line after the SecRule line and the operand ends in `\" \\` at the end of the line"},
@@ -582,7 +582,7 @@ func init() {
 	})
 	register(&Property{
 		ID: "C12", Level: "exploration",
-		Rule: rule + "Histories: update T -> compare T (must print 'has not changed', exit 0; `-o github compare --all` exit 0); update T -> update T (byte no-op); stored span = generate's stdout; update T -> edit the stored span (flip one byte, drop the last byte, append a byte, empty it, change the case of one letter) -> compare (text single rule: exit != 0 and 'has changed!'; -o github single and --all: exit != 0; text --all prints 'has changed!'). Non-trivial = update succeeded; distinct = distinct (world, flipped byte).",
+		Rule: rule + "Histories: (10%: a further rule has its data file in a sub directory of regex-assembly; update --all -> compare --all must agree on it) update T -> compare T (must print 'has not changed', exit 0; `-o github compare --all` exit 0); update T -> update T (byte no-op); stored span = generate's stdout; update T -> edit the stored span (flip one byte, drop the last byte, append a byte, empty it, change the case of one letter) -> compare (text single rule: exit != 0 and 'has changed!'; -o github single and --all: exit != 0; text --all prints 'has changed!'). Non-trivial = update succeeded; distinct = distinct (world, flipped byte).",
 		Gen:  genRules, Eval: evalC12,
 		QuickChecks: 300, ThoroughChecks: 6000, Timeout: 20 * time.Second,
 		Assumptions: []string{"the edited byte is never a quote, backslash or line terminator, so the line keeps the CRS layout", "for the --all variants only the target's assembly file is left in place"},
